@@ -188,6 +188,10 @@ func (r *Run) Finish(level string, cov Coverage, assumptions []string) {
 		Assumptions: assumptions, WallS: time.Since(r.Start).Seconds(), Violations: violations}
 	b, _ := json.MarshalIndent(ev, "", " ")
 	dir := filepath.Join(tlcrun.VerifDir(), "evidence")
+	if d := os.Getenv("VERIF_EVIDENCE_DIR"); d != "" {
+		// testing aid (seedtest.sh): runs against a changed tree leave the committed evidence alone
+		dir = d
+	}
 	os.MkdirAll(dir, 0o755)
 	if err := os.WriteFile(filepath.Join(dir, r.Prop+".json"), append(b, '\n'), 0o644); err != nil {
 		Inconclusive("cannot write evidence: %v", err)
